@@ -1278,45 +1278,19 @@ theorem resolvePosition_not_mono_witness_bbox :
     wPolyOut0 ≠ wPolyOut1 :=
   ⟨wIncl23, by decide, rfl, wUseB_bb_c2, wPoly_c2, wPoly_c3, wPolyOut_ne⟩
 
-/-- the length hypothesis is needed (an artefact of the model's fuel, `elems.length + 1`, which counts
-    neither `prev` nor the element being resolved): `<use href="^" xy="#a|h"/>` with
-    `prev = <use href="#a"/>` needs three `target` steps (itself, `prev`, `a`). With `a` registered
-    twice the fuel is 3 and it resolves; with `a` registered once (same view of every id!) the fuel is
-    2 and the model answers `CircularRefError`. -/
+/-- the fuel of `target` is `elems.length + 2`: the element being resolved, `prev` (neither is counted
+    by `elems`) and then distinct registered elements. `<use href="^" xy="#a|h"/>` with
+    `prev = <use href="#a"/>` needs three `target` steps (itself, `prev`, `a`) and gets them with a
+    single registered element. (With `elems.length + 1` the model answered `CircularRefError` here,
+    which the code does not: found while proving monotonicity, corrected in the model.)
+    The length hypothesis `hlen` of the theorems below is what the fuel argument uses; two contexts
+    with the same view of every id can still differ in length through shadowed registrations. -/
 def wUsePrev : Elem := { name := cs!"use", attrs := [(cs!"href", cs!"^"), (cs!"xy", cs!"#a|h")] }
 def wUseA : Elem := { name := cs!"use", attrs := [(cs!"href", cs!"#a")] }
-def wCL : Ctx := { elems := [(['a'], wRect), (['a'], wRect)], prev := some wUseA }
 def wCS : Ctx := { elems := [(['a'], wRect)], prev := some wUseA }
-def wUsePrevOut : Elem :=
-  { name := cs!"use", attrs := [(cs!"href", cs!"^"), (['x'], cs!"10"), (['y'], cs!"0")] }
-
-theorem wInclLS : Ctx.Incl wCL wCS := by
-  refine ⟨rfl, fun i el h => ?_⟩
-  simp only [Ctx.get, wCL, wCS, lookupTable] at h ⊢
-  split at h
-  · rename_i hi; simp only [hi, if_true]; exact h
-  · cases h
 
 set_option maxRecDepth 100000 in
-theorem wUsePrev_cL : wUsePrev.resolvePosition wCL = .ok wUsePrevOut := by with_unfolding_all rfl
-set_option maxRecDepth 100000 in
-theorem wUsePrev_cS : wUsePrev.resolvePosition wCS = .error .circular := by with_unfolding_all rfl
-
-theorem mono_needs_length_witness :
-    Ctx.Incl wCL wCS ∧ Ctx.Incl wCS wCL ∧ ¬ wCL.elems.length ≤ wCS.elems.length ∧
-    NoRelspecName wUsePrev ∧
-    wUsePrev.resolvePosition wCL = .ok wUsePrevOut ∧
-    wUsePrev.resolvePosition wCS = .error .circular := by
-  refine ⟨wInclLS, ?_, by decide, by unfold NoRelspecName; decide, wUsePrev_cL, wUsePrev_cS⟩
-  refine ⟨rfl, fun i el h => ?_⟩
-  simp only [Ctx.get, wCL, wCS, lookupTable] at h ⊢
-  split at h
-  · rename_i hi; simp only [hi, if_true]; exact h
-  · cases h
-
-set_option maxRecDepth 100000 in
-/-- the fuel `elems.length + 1` is one short for a chain through `prev` (model artefact, see (F2)) -/
-theorem target_fuel_short_witness :
+theorem target_fuel_chain_witness :
     wCS.target (wCS.elems.length + 1) wUsePrev = .error .circular ∧
     wCS.target (wCS.elems.length + 2) wUsePrev = .ok wRect := by
   constructor <;> with_unfolding_all rfl
@@ -1630,8 +1604,7 @@ section Axioms
 #print axioms resolvePosition_not_mono_witness_bbox
 #print axioms process_not_mono_witness
 #print axioms resolvePosition_not_mono
-#print axioms mono_needs_length_witness
-#print axioms target_fuel_short_witness
+#print axioms target_fuel_chain_witness
 #print axioms target_fuel_mono
 #print axioms bbox_mono
 #print axioms expandSingleRelspec_unsettled
